@@ -8,6 +8,8 @@
 #include "spacial/tbfspacialconfiguration.hpp"
 #include "core/tbftree.hpp"
 #include "algorithms/openmp/tbfopenmpalgorithm.hpp"
+#include "algorithms/openmp/tbfopenmpalgorithmtsm.hpp"
+#include "core/tbftreetsm.hpp"
 #include "common.hpp"
 #include "trace_kernel.hpp"
 #include <algorithm>
@@ -73,9 +75,80 @@ std::string run_exec_omp(const Cmd& c){
     return out;
 }
 
+//   execomptsm d per H B mode stop policy T seed nf f.. Ns nums Nt nums
+// output: dumpSource || dumpTarget || trace || R || T tasks || O order
+template <long D, bool Per>
+std::string run_exec_omp_tsm(const Cmd& c){
+    using Conf = TbfSpacialConfiguration<double, D>;
+    using Space = TbfMortonSpaceIndex<D, Conf, Per>;
+    using Tree = TbfTreeTsm<double, double, D, unsigned long, 1, TagVal, TagVal, Space>;
+    using Kernel = TraceKernel<double, Space>;
+    using Algo = TbfOpenmpAlgorithmTsm<double, Kernel, Space>;
+    const long H = c.L(3), B = c.L(4), mode = c.L(5), stop = c.L(6), policy = c.L(7), T = c.L(8), seed = c.L(9), nf = c.L(10);
+    std::vector<int> flags; size_t a = 11;
+    for(long k = 0 ; k < nf ; ++k) flags.push_back(int(c.L(a++)));
+    std::array<double, D> w, ctr; for(long k = 0 ; k < D ; ++k){ w[k] = 1; ctr[k] = 0.5; }
+    Conf conf(H, w, ctr);
+    const double scale = 16.0 * double(1L << (H-1));
+    const long Ns = c.L(a++);
+    std::vector<std::array<double, D>> ps(Ns);
+    for(long i = 0 ; i < Ns ; ++i) for(long k = 0 ; k < D ; ++k) ps[i][k] = double(c.L(a++)) / scale;
+    const long Nt = c.L(a++);
+    std::vector<std::array<double, D>> pt(Nt);
+    for(long i = 0 ; i < Nt ; ++i) for(long k = 0 ; k < D ; ++k) pt[i][k] = double(c.L(a++)) / scale;
+    Tree tree(conf, ps, pt, B, mode != 0);
+    tree.applyToAllCellsSource([](long level, auto&& h, auto&& m, auto&&){ if(m){ m->get().tagLevel1 = level + 1; m->get().tagIndex = h.spaceIndex; } });
+    tree.applyToAllCellsTarget([](long level, auto&& h, auto&&, auto&& l){ if(l){ l->get().tagLevel1 = level + 1; l->get().tagIndex = h.spaceIndex; } });
+    std::map<const void*, std::string> bufname;
+    for(long l = 0 ; l < H ; ++l){
+        long g = 0; for(auto& grp : tree.getCellGroupsAtLevelSource(l)){ bufname[grp.getMultipolePtr()] = "M" + std::to_string(l) + "." + std::to_string(g); g += 1; }
+        g = 0; for(auto& grp : tree.getCellGroupsAtLevelTarget(l)){ bufname[grp.getLocalPtr()] = "L" + std::to_string(l) + "." + std::to_string(g); g += 1; }
+    }
+    { long g = 0; for(auto& grp : tree.getParticleGroupsSource()){ bufname[grp.getDataPtr()] = "DS" + std::to_string(g); g += 1; } }
+    { long g = 0; for(auto& grp : tree.getParticleGroupsTarget()){ bufname[grp.getDataPtr()] = "DT" + std::to_string(g); bufname[grp.getRhsPtr()] = "R" + std::to_string(g); g += 1; } }
+    TraceSink sink; trace_sink() = &sink;
+    mock_rt().reset(MockRuntime::Policy(policy), int(T), (unsigned long)seed);
+    mock_rt().on_task_start = [](long s){ trace_sink()->add("@task " + std::to_string(s)); };
+    std::string out = dump_parts(H, [&](long l) -> const auto& { return tree.getCellGroupsAtLevelSource(l); }, tree.getParticleGroupsSource());
+    out += " || " + dump_parts(H, [&](long l) -> const auto& { return tree.getCellGroupsAtLevelTarget(l); }, tree.getParticleGroupsTarget());
+    {
+        std::unique_ptr<Algo> algo(new Algo(conf, stop));
+        for(int f : flags){ algo->execute(tree, f); sink.add("--"); }
+    }
+    std::string tasks;
+    for(auto& t : mock_rt().history){
+        tasks += " " + std::to_string(t.seq) + ":" + std::to_string(t.priority) + ":" + std::to_string(t.worker) + ":";
+        bool first = true;
+        for(auto& d : t.deps){
+            auto it = bufname.find(d.first);
+            tasks += (first ? "" : ",") + std::string(d.second == 0 ? "in@" : (d.second == 1 ? "out@" : "mtx@")) + (it == bufname.end() ? std::string("?") : it->second);
+            first = false;
+        }
+    }
+    std::string order;
+    for(long s : mock_rt().exec_order) order += " " + std::to_string(s);
+    out += " || " + join_trace(sink);
+    std::vector<std::pair<long, unsigned long>> r;
+    tree.applyToAllLeavesTarget([&](auto&& h, const long* idx, auto&&, auto&& rhs){ for(long p = 0 ; p < h.nbParticles ; ++p) r.push_back({idx[p], rhs[0][p]}); });
+    std::sort(r.begin(), r.end());
+    out += " || R";
+    for(auto& kv : r) out += " " + std::to_string(kv.first) + "=" + std::to_string(kv.second);
+    out += " || T" + tasks + " || O" + order;
+    trace_sink() = nullptr;
+    return out;
+}
+
 int main(int argc, char** argv){
     return run_commands(argc, argv, [](const Cmd& c) -> std::string {
         const long d = c.L(1); const bool per = c.L(2) != 0;
+        if(c.tok[0] == "execomptsm"){
+            switch(d*2 + (per?1:0)){
+            case 2: return run_exec_omp_tsm<1,false>(c);
+            case 4: return run_exec_omp_tsm<2,false>(c);
+            case 6: return run_exec_omp_tsm<3,false>(c);
+            }
+            return "?dim";
+        }
         if(c.tok[0] != "execomp") return "?unknown";
         switch(d*2 + (per?1:0)){
         case 2: return run_exec_omp<1,false>(c);
